@@ -74,6 +74,7 @@ pub fn campaign(ctx: &mut Ctx, target: &str, runs_per_job: u64, jobs: usize, max
             .arg(format!("-runs={}", runs_per_job))
             .arg(format!("-seed={}", seed))
             .arg("-len_control=0")
+            .arg("-use_value_profile=1")
             .arg(format!("-max_len={}", max_len))
             .arg(format!("-artifact_prefix={}/", arts.display()))
             .arg("-print_final_stats=1")
